@@ -4,6 +4,7 @@ import (
 	"fmt"
 	"html/template"
 	"io"
+	"strconv"
 	"strings"
 
 	"flamingo.me/pugtemplate/otto/ast"
@@ -96,12 +97,14 @@ func (p *renderState) JsExpr(expr JavaScriptExpression, wrap, rawcode bool) stri
 }
 
 // interpolate a string, in the format of `something something ${arbitrary js code resuting in a string} blah`
-// we use a helper function called `s` to merge them later
-func (p *renderState) interpolate(input JavaScriptExpression) JavaScriptExpression {
-	index := 1
+// the result are the arguments of the helper function `__str` which merges them later: the literal parts
+// as quoted strings (an empty part is left out), the code parts compiled
+func (p *renderState) interpolate(input JavaScriptExpression) string {
+	var args string
+	literal := 0 // where the literal part in front of the next `${` begins
 	start := 0
 
-	for index < len(input) {
+	for index := 1; index < len(input); index++ {
 		switch {
 		case input[index] == '\\':
 			break
@@ -110,14 +113,20 @@ func (p *renderState) interpolate(input JavaScriptExpression) JavaScriptExpressi
 			start = index + 1
 
 		case input[index] == '}' && start != 0:
-			substring := JavaScriptExpression(p.JsExpr(input[start:index], false, false))
-			input = input[:start-2] + `" ` + substring + ` "` + input[index+1:]
-			index = start + len(substring)
+			args += quoteLiteral(string(input[literal:start-2])) + ` ` + p.JsExpr(input[start:index], false, false) + ` `
+			literal = index + 1
 			start = 0
 		}
-		index++
 	}
-	return input
+	return args + quoteLiteral(string(input[literal:]))
+}
+
+// quoteLiteral writes a literal part of an interpolated string as a string of the template language
+func quoteLiteral(literal string) string {
+	if literal == "" {
+		return ""
+	}
+	return strconv.Quote(literal)
 }
 
 func (p *renderState) renderStatement(stmt ast.Statement, wrap bool, dot bool) string {
@@ -260,8 +269,7 @@ func (p *renderState) renderExpression(expr ast.Expression, wrap bool, dot bool)
 	// StringLiteral: "test" or 'test' or `test`
 	case *ast.StringLiteral:
 		if strings.Index(expr.Value, "${") >= 0 {
-			result = `(__str "` + string(p.interpolate(JavaScriptExpression(expr.Value))) + `")`
-			result = strings.Replace(result, `""`, ``, -1)
+			result = `(__str ` + p.interpolate(JavaScriptExpression(expr.Value)) + `)`
 			if wrap {
 				if !p.rawmode {
 					result += ` | __pug__html`
